@@ -66,5 +66,65 @@ class FastTileSubstitute(Contract):
         return {1: defined_loop({'X': d1}), 2: defined_loop({'X': d2}), 3: defined_loop({'X': d3})}
 
 
+from vf.contract import FragmentContract
+
+
+class GreedyBestCandidate(FragmentContract):
+    """C20 (selection step of greedy_substitution; the four statements after the per-position losses of
+    one motif have been computed): the running best (improvement, motif, position, loss) is replaced
+    whenever this motif's smallest loss improves on it strictly (never when it is worse), and then records
+    that smallest loss and one of its positions; otherwise it is unchanged.  Hence after all motifs the recorded candidate
+    has the smallest loss among all motifs and all fitting positions (or none improves on the current
+    sequence and best_motif_idx stays -1)."""
+    qualname = 'tangermeme.design.greedy_substitution'
+    props = ('C20',)
+    stmt_block = ('pos = loss_curr.argmin()', 4)
+    key = 'tangermeme.design.greedy_substitution#best-candidate'
+
+    def scopes(self, cfg):
+        return [{'default': 3}, {'default': 1}, {'default': 4}]
+
+    def make_env(self, cfg, A):
+        P = A.dim('P', 1)
+        loss_curr = A.tensor('loss_curr', 1, 'real', shape=[P])
+        env = dict(loss_curr=loss_curr, loss_prev=A.real('loss_prev'), best_improvement=A.real('best_improvement'),
+                   best_motif_idx=A.int('best_motif_idx'), best_pos=A.int('best_pos'), best_loss=A.real('best_loss'), idx=A.int('idx', lo=0))
+        A.assume(env['best_improvement'] >= 0)
+        return env
+
+    def post_env(self, b, a, outcome, cfg):
+        out = [('no-exception', not outcome.startswith('raise'))]
+        if not out[0][1]:
+            return out
+        L = b.loss_curr
+        P = L.shape[0]
+        bi, bm, bp, bl = a.best_improvement, a.best_motif_idx, a.best_pos, a.best_loss
+        from vf.lib import unwrap_scalar
+        bi, bm, bp, bl = [unwrap_scalar(x) if isinstance(x, Tn) else x for x in (bi, bm, bp, bl)]
+        better = O.exists_box([P], lambda i: b.loss_prev - L.elem(i) > b.best_improvement)
+        # replaced: this motif's minimum is recorded; kept: nothing changes
+        replaced = And(O.eq(bm, b.idx), 0 <= bp, bp < P, O.forall([P], lambda i: bl <= L.elem(i)),
+                       O.exists_box([P], lambda i: And(O.eq(i, bp), O.eq(L.elem(i), bl))), O.eq(bi, b.loss_prev - bl))
+        kept = And(O.eq(bi, b.best_improvement), O.eq(bm, b.best_motif_idx), O.eq(bp, b.best_pos), O.eq(bl, b.best_loss))
+        tie_or_better = O.exists_box([P], lambda i: b.loss_prev - L.elem(i) >= b.best_improvement)
+        # (how ties between equally good candidates are broken is not part of the property)
+        out.append(('candidate-is-the-old-one-or-this-motifs-minimum', Or(replaced, kept)))
+        out.append(('a-strictly-better-candidate-replaces', Implies(better, replaced)))
+        out.append(('a-worse-candidate-does-not', Implies(Not(tie_or_better), kept)))
+        out.append(('best-improvement-is-the-running-maximum', And(bi >= b.best_improvement, O.forall([P], lambda i: bi >= b.loss_prev - L.elem(i)))))
+        return out
+
+    def replay_fragment(self, cfg, st):
+        import torch
+        from vf.contract import replay_fragment_generic
+        if st.get('loss_curr') is None:
+            return []
+        env = dict(loss_curr=torch.tensor([float(int(round(x)) % 7) for x in st['loss_curr']], dtype=torch.float64), loss_prev=float(int(st.get('loss_prev', 3)) % 9),
+                   best_improvement=float(abs(int(st.get('best_improvement', 0))) % 5), best_motif_idx=int(st.get('best_motif_idx', -1)),
+                   best_pos=int(st.get('best_pos', -1)), best_loss=float(int(st.get('best_loss', 0)) % 9), idx=int(st.get('idx', 0)))
+        return replay_fragment_generic(self._world, self, cfg, env)
+
+
 def register(world):
     world.register(FastTileSubstitute())
+    world.register_fragment(GreedyBestCandidate())
